@@ -105,6 +105,10 @@ template <typename T, typename E, int BITS> struct plain_k
         // (the two-dimensional distribution comes first: what follows it in the reduction buffers is addressed past all of its bins)
         pr.add(1, x * T(4), v);
         pr.add(0, x * T(4), p.point()[1] < T(0.5) ? T(0.25) : T(0.75), v + T(1));
+        // several entries of one call in the same bin (jets of one event): five more in the middle bin for stretches of four calls, none for
+        // the next four - the counters of that bin exceed the calls of some ranks and stay below those of others
+        long long const pos = ectx.has_pos ? reveal<T, BITS>::pos(p.point()[0]) : -1;
+        if (pos >= 0 ? (pos / 8) % 2 == 0 : p.point()[1] < T(0.5)) for (int k = 0; k != 5; ++k) pr.add(1, T(0.5), T(1));
         return v;
     }
     template <typename CB> static chk serial(chk const& c, std::vector<std::size_t> const& plan, CB cb)
